@@ -222,6 +222,11 @@ struct TlsState {
     after: Vec<u8>,
     /// everything the client decrypted
     tlsout: Vec<u8>,
+    /// server bytes written after the greeting and not yet flushed: the transport hands bytes to the
+    /// peer only on flush()
+    pending: Vec<u8>,
+    /// number of read() calls made while written bytes were waiting for a flush
+    unflushed_reads: usize,
 }
 
 thread_local! {
@@ -283,6 +288,9 @@ impl Read for TlsTransport {
         TS.with(|ts| {
             let mut ts = ts.borrow_mut();
             let ts = ts.as_mut().expect("harness: tls state missing");
+            if !ts.pending.is_empty() {
+                ts.unflushed_reads += 1;
+            }
             // 1. the `pre` + k block
             if ts.pre_pos < ts.pre_block.len() {
                 let avail = ts.pre_block.len() - ts.pre_pos;
@@ -333,7 +341,7 @@ impl Write for TlsTransport {
                 ts.plainout.extend_from_slice(buf);
             } else {
                 ts.after.extend_from_slice(buf);
-                ts.feed_client(buf);
+                ts.pending.extend_from_slice(buf);
             }
             Ok(buf.len())
         })
@@ -343,6 +351,8 @@ impl Write for TlsTransport {
         TS.with(|ts| {
             if let Some(ts) = ts.borrow_mut().as_mut() {
                 ts.flushed_once = true;
+                let pending = std::mem::take(&mut ts.pending);
+                ts.feed_client(&pending);
             }
         });
         Ok(())
@@ -395,6 +405,15 @@ pub fn finish_case(result: &str) -> (String, Vec<Aux>) {
         line(&mut log, &|l| {
             l.push_str("tlsrec|");
             l.push_str(check_records(after));
+        });
+        let unflushed_reads = st.as_ref().map(|s| s.unflushed_reads).unwrap_or(0);
+        line(&mut log, &|l| {
+            l.push_str("tlsflush|");
+            if unflushed_reads == 0 {
+                l.push_str("ok");
+            } else {
+                l.push_str(&format!("bad:{}", unflushed_reads));
+            }
         });
         let certs = cs.certs;
         line(&mut log, &|l| {
@@ -478,6 +497,8 @@ pub fn run_case(case: Case) -> (String, Vec<Aux>) {
             plainout: Vec::new(),
             after: Vec::new(),
             tlsout: Vec::new(),
+            pending: Vec::new(),
+            unflushed_reads: 0,
         });
     });
     let case = Arc::new(case);
